@@ -5,7 +5,7 @@ CONSTANTS
   FactorSel = {1}
   PriorSel = {1,2,4}
   KSel = {2,4}
-  MaxLevel = 5
+  MaxLevel = 6
   PriorTable = "persist_user_only"
   ViewSpace = "param_mode"
   DerivedLookup = "derived"
